@@ -206,13 +206,15 @@ Fixpoint im_insert (k : mkey) (v : N) (m : list (mkey * N)) : list (mkey * N) :=
   end.
 Definition im_contains (k : mkey) (m : list (mkey * N)) : bool := existsb (fun kv => mkey_eqb k (fst kv)) m.
 
-Definition merge_field (source ty : N) (m : list (mkey * N)) (fv : N * N) : list (mkey * N) :=
+(* "<source>.<field>" always; "<event type>.<field>" as an alias when the event type differs from the source name
+   and is not itself the name of a joined source; "<field>" unprefixed, first writer wins *)
+Definition merge_field (srcs : list N) (source ty : N) (m : list (mkey * N)) (fv : N * N) : list (mkey * N) :=
   let '(f, v) := fv in
   let m1 := im_insert (Some source, f) v m in
-  let m2 := if N.eqb source ty then m1 else im_insert (Some ty, f) v m1 in
+  let m2 := if N.eqb source ty || existsb (N.eqb ty) srcs then m1 else im_insert (Some ty, f) v m1 in
   if im_contains (None, f) m2 then m2 else im_insert (None, f) v m2.
-Definition merge_event (m : list (mkey * N)) (se : N * jev) : list (mkey * N) :=
-  fold_left (merge_field (fst se) (jty (snd se))) (jfields (snd se)) m.
-Definition correlated (chosen : list (N * jev)) : Z * list (mkey * N) :=
+Definition merge_event (srcs : list N) (m : list (mkey * N)) (se : N * jev) : list (mkey * N) :=
+  fold_left (merge_field srcs (fst se) (jty (snd se))) (jfields (snd se)) m.
+Definition correlated (c : cfg) (chosen : list (N * jev)) : Z * list (mkey * N) :=
   (fold_left (fun m se => Z.max m (jts (snd se))) (tl chosen) (match chosen with se :: _ => jts (snd se) | [] => 0 end),
-   fold_left merge_event chosen []).
+   fold_left (merge_event (sources c)) chosen []).
